@@ -13,6 +13,7 @@
 #include <string.h>
 #include <stdint.h>
 #include <unistd.h>
+#include "watchdog.h"
 
 static int hexv(int c) { return c <= '9' ? c - '0' : (c | 32) - 'a' + 10; }
 static uint64_t rng_s;
